@@ -22,7 +22,7 @@
 
 /* Token bucket state per subscriber */
 struct token_bucket {
-	__u64 tokens;           /* Current tokens (in bytes) */
+	__u64 tokens;           /* Current tokens (in 1e-9 bytes, see TOKENS_PER_BYTE) */
 	__u64 last_update;      /* Last update timestamp (ns) */
 	__u64 rate_bps;         /* Rate in bits per second */
 	__u32 burst_bytes;      /* Maximum burst size in bytes */
@@ -64,6 +64,15 @@ struct {
 	__type(value, struct qos_stats);
 } qos_stats_map SEC(".maps");
 
+/* Tokens are accounted in units of 1e-9 bytes: one nanosecond at one byte per
+ * second earns exactly one unit, so the refill needs no division and no
+ * fraction of a byte is lost however closely packets follow each other.
+ * (Refilling in whole bytes while advancing last_update on every packet threw
+ * away up to one byte per packet - everything, once packets arrived faster
+ * than one byte-time apart.) Must match tokensPerByte in pkg/qos/manager.go.
+ */
+#define TOKENS_PER_BYTE 1000000000ULL
+
 /* Update token bucket and check if packet can pass
  * Returns: 1 if packet allowed, 0 if should be dropped
  */
@@ -71,6 +80,7 @@ static __always_inline int token_bucket_check(struct token_bucket *tb, __u32 pkt
 	__u64 now = bpf_ktime_get_ns();
 	__u64 elapsed_ns;
 	__u64 new_tokens;
+	__u64 max_tokens;
 	__u64 tokens_needed;
 
 	/* Rate of 0 means unlimited */
@@ -81,20 +91,21 @@ static __always_inline int token_bucket_check(struct token_bucket *tb, __u32 pkt
 	elapsed_ns = now - tb->last_update;
 
 	/* Calculate new tokens to add (rate_bps / 8 = bytes per second) */
-	/* tokens = elapsed_ns * (rate_bps / 8) / 1e9 */
-	/* Simplified: tokens = elapsed_ns * rate_bps / 8e9 */
-	new_tokens = (elapsed_ns * (tb->rate_bps / 8)) / 1000000000ULL;
+	/* elapsed_ns * bytes per second = tokens in 1e-9 bytes */
+	new_tokens = elapsed_ns * (tb->rate_bps / 8);
 
-	/* Add tokens, capped at burst size */
-	tb->tokens += new_tokens;
-	if (tb->tokens > tb->burst_bytes)
-		tb->tokens = tb->burst_bytes;
+	/* Add tokens, capped at burst size (the comparison cannot wrap) */
+	max_tokens = (__u64)tb->burst_bytes * TOKENS_PER_BYTE;
+	if (tb->tokens >= max_tokens || new_tokens >= max_tokens - tb->tokens)
+		tb->tokens = max_tokens;
+	else
+		tb->tokens += new_tokens;
 
 	/* Update timestamp */
 	tb->last_update = now;
 
 	/* Check if we have enough tokens for this packet */
-	tokens_needed = pkt_len;
+	tokens_needed = (__u64)pkt_len * TOKENS_PER_BYTE;
 	if (tb->tokens >= tokens_needed) {
 		tb->tokens -= tokens_needed;
 		return 1; /* Allow */
